@@ -344,6 +344,9 @@ def obj_attr(eng, v, cls, name, s):
         return [(SV(val, fty), s)]
     if reg.is_class_var(cls, name):
         return [(SV(s.heap.get_field(CLASS_OBJ(reg.class_var_owner(cls, name)), name), reg.field_ty(cls, name)), s)]
+    if cls == "Particle" and getattr(reg, "particle_attr", None) is not None and not reg.has_field(cls, name) \
+            and reg.method(cls, name) is None:
+        return reg.particle_attr(eng, v, name, s)
     prop = reg.property_of(cls, name)
     if prop is not None:
         return call_value(eng, BoundMeth(v, name, prop), [], {}, s)
@@ -685,7 +688,12 @@ def call(eng, e, st):
         if r is not None:
             return r
     out = []
-    for f, s in eng.ev(e.func, st):
+    if eng.spec and isinstance(e.func, ast.Name) and e.func.id in eng.reg.spec_funcs:
+        # spec functions win over program variables of the same name
+        fs = [(FuncRef("spec." + e.func.id, eng.reg.spec_funcs[e.func.id]), st)]
+    else:
+        fs = None
+    for f, s in (fs if fs is not None else eng.ev(e.func, st)):
         # positional args (with *iterable support) and keywords (with **dict support)
         arg_nodes = [a.value if isinstance(a, ast.Starred) else a for a in e.args]
         kw_nodes = [k.value for k in e.keywords]
